@@ -203,6 +203,26 @@ def G18():
     return True, "13 particles, N = 12: list written"
 
 
+def G19():
+    """uint32 type ids (what HOOMD/GSD frames carry): the cross partials of a ternary g(r) must not depend on the integer kind"""
+    from PyMatterSim.reader.reader_utils import SingleSnapshot, Snapshots
+    from PyMatterSim.static.gr import gr
+    rng = np.random.default_rng(1)
+    N, L = 90, 6.0
+    pos = rng.random((N, 3)) * L
+    types = rng.permutation(np.repeat([1, 2, 3], 30))
+
+    def mk(t):
+        s = SingleSnapshot(timestep=0, nparticle=N, particle_type=t, positions=pos, boxlength=np.array([L] * 3), boxbounds=np.array([[0, L]] * 3),
+                           realbounds=None, hmatrix=np.diag([L] * 3))
+        return Snapshots(nsnapshots=1, snapshots=[s])
+    a = gr(mk(types.astype(np.int64)), ppp=np.array([1, 1, 1]), rdelta=0.5).getresults()
+    b = gr(mk(types.astype(np.uint32)), ppp=np.array([1, 1, 1]), rdelta=0.5).getresults()
+    dev = {c: float(np.abs(a[c] - b[c]).max()) for c in a.columns}
+    bad = {c: round(v, 4) for c, v in dev.items() if v > 1e-12}
+    return not bad, f"ternary g(r), uint32 vs int64 type ids: columns that differ {bad or 'none'}"
+
+
 if __name__ == "__main__":
     import logging
     logging.disable(logging.CRITICAL)
